@@ -264,21 +264,26 @@ impl Lookup<'_> {
     /// First-match evaluation of a pair lookup (sub-tables in order; format 1 applies iff g1 is
     /// covered and its pair set has a record for g2; format 2 applies iff g1 is covered and both
     /// classes are inside the record matrix).
-    pub fn eval_pair(&self, g1: u16, g2: u16) -> R<Option<(RVal, RVal)>> {
+    /// Glyph ids are 32-bit (`GlyphId`), as the read-fonts query API takes them: ids above 0xFFFF can
+    /// never be covered by these 16-bit tables and never equal a 16-bit second glyph.
+    pub fn eval_pair(&self, g1: u32, g2: u32) -> R<Option<(RVal, RVal)>> {
+        use read_fonts::types::GlyphId;
         for s in &self.subs {
             match s {
                 Sub::Pair1 { cov, sets } => {
-                    if let Some(i) = cov.get(GlyphId16::new(g1)) {
+                    if let Some(i) = cov.get(GlyphId::new(g1)) {
                         let set = sets.get(i as usize).ok_or_else(|| format!("coverage index {i} of glyph {g1} has no pair set ({} sets)", sets.len()))?;
-                        if let Some(v) = set.get(&g2) {
+                        if let Some(v) = u16::try_from(g2).ok().and_then(|g2| set.get(&g2)) {
                             return Ok(Some(v.clone()));
                         }
                     }
                 }
                 Sub::Pair2 { cov, cd1, cd2, recs } => {
-                    if cov.get(GlyphId16::new(g1)).is_some() {
-                        let c1 = cd1.get(GlyphId16::new(g1)) as usize;
-                        let c2 = cd2.get(GlyphId16::new(g2)) as usize;
+                    if cov.get(GlyphId::new(g1)).is_some() {
+                        // ClassDef::get only takes 16-bit ids: a wider id is in no class (class 0)
+                        let class = |cd: &rl::ClassDef, g: u32| u16::try_from(g).map(|g| cd.get(GlyphId16::new(g))).unwrap_or(0) as usize;
+                        let c1 = class(cd1, g1);
+                        let c2 = class(cd2, g2);
                         if c1 < recs.len() && c2 < recs[c1].len() {
                             return Ok(Some(recs[c1][c2].clone()));
                         }
@@ -291,10 +296,11 @@ impl Lookup<'_> {
     }
 
     /// first sub-table covering both glyphs whose base record has an anchor for the mark's class
-    pub fn eval_mark_base(&self, mark: u16, base: u16) -> R<Option<(RAnchor, RAnchor)>> {
+    pub fn eval_mark_base(&self, mark: u32, base: u32) -> R<Option<(RAnchor, RAnchor)>> {
+        use read_fonts::types::GlyphId;
         for s in &self.subs {
             if let Sub::MarkBase { mcov, bcov, marks, bases } = s {
-                if let (Some(mi), Some(bi)) = (mcov.get(GlyphId16::new(mark)), bcov.get(GlyphId16::new(base))) {
+                if let (Some(mi), Some(bi)) = (mcov.get(GlyphId::new(mark)), bcov.get(GlyphId::new(base))) {
                     let (class, ma) = marks.get(mi as usize).ok_or_else(|| format!("mark coverage index {mi} has no mark record"))?;
                     let row = bases.get(bi as usize).ok_or_else(|| format!("base coverage index {bi} has no base record"))?;
                     let cell = row.get(*class as usize).ok_or_else(|| format!("mark class {class} outside base record ({} classes)", row.len()))?;
